@@ -1,10 +1,12 @@
 (* Property C03 -- evaluations are repeatable and do not interfere with each other.
    Only statements, each closed by [exact].  Three layers (DESIGN section 6, C03):
-   (a) the HashedIterable domain cache as a concurrent object (Eql/DomainCache.v): proved for every schedule with at
-       most one live handle; refuted for two live handles and for duplicate elements; the repaired (index-based)
-       iterator proved for every schedule whatsoever;
+   (a) the HashedIterable domain cache as a concurrent object (Eql/DomainCache.v).  The faithful model of the CURRENT
+       iterator (krrood 1997e3c: positional replay of a per-round snapshot, one new element per round, cached ids skipped)
+       is [rstep]/[rrun]: proved for EVERY domain and EVERY schedule.  [hstep]/[run] model the PREVIOUS iterator and are
+       kept as regression statements (what used to fail, and the fragment on which it was correct);
    (b) whole evaluations threaded through the surviving state (Eql/Reeval.v): history-independent on the rule-free
-       conjunctive fragment with NoDup domains; refuted for rule queries (selector memory) and duplicate elements;
+       conjunctive fragment, any domains; refuted for rule queries (selector memory, still open);
+       the Exists node's de-duplication memory (Eql/ReevalExists.v): isolated because it is per evaluation;
    (c) whole evaluations interleaved step by step: NOT proved -- Eql/DomainCacheSched.v is an executable prediction that
        the harness compares with the implementation on enumerated schedules. *)
 From Coq Require Import List ZArith Bool.
@@ -13,93 +15,58 @@ From Krrood Require Import Eql.DomainCacheSpec Eql.DomainCache Eql.DomainCachePr
 Import ListNotations.
 Open Scope Z_scope.
 
-(* (a) current __iter__: every domain without duplicates, every schedule of create/next/abandon operations of any
-   length in which a handle is created only when no other handle is live (abandoning at any point included):
-   no handle dies with RuntimeError, a handle that ran to StopIteration yielded exactly the domain in order, and every
-   handle -- abandoned ones too -- yielded a prefix of it. *)
-Theorem C03_cache_sequential : forall (domain : list hv), NoDup domain ->
-  forall (ops : list op) (S' : sys) (h : nat) (st : hstate) (tr : list hv),
-  seq_run ops (init domain) = Some S' ->
-  nth_error (hs S') h = Some (st, tr) ->
-  st <> HFailed /\ (st = HDone -> tr = iter_spec domain) /\ is_prefix tr (iter_spec domain).
-Proof. exact cache_sequential. Qed.
-
-(* (a) the EMPTY domain explicitly (a variable without any value of its type, also after let's isinstance filter): every
-   handle of every sequential schedule -- the second, third, ... included -- yields nothing and none dies *)
-Theorem C03_cache_sequential_empty : forall (ops : list op) (S' : sys) (h : nat) (st : hstate) (tr : list hv),
-  seq_run ops (init []) = Some S' -> nth_error (hs S') h = Some (st, tr) -> st <> HFailed /\ tr = [].
-Proof. exact cache_sequential_empty. Qed.
-
-(* (a) a WARM cache (source exhausted, everything cached -- the state after one complete evaluation): every schedule
-   whatsoever, any number of live handles: the cache cannot make evaluations interfere any more *)
-Theorem C03_cache_warm_any_schedule : forall (domain : list hv), NoDup domain ->
-  forall (ops : list op) (h : nat) (st : hstate) (tr : list hv),
-  nth_error (hs (DomainCache.run ops {| dom := warm domain; hs := [] |})) h = Some (st, tr) ->
-  st <> HFailed /\ (st = HDone -> tr = iter_spec domain) /\ is_prefix tr (iter_spec domain).
-Proof. exact cache_warm_any_schedule. Qed.
-
-(* [seq_run] is the unrestricted machine [run] plus the side condition, nothing else *)
-Theorem C03_seq_run_is_run : forall ops S S', seq_run ops S = Some S' -> S' = DomainCache.run ops S.
-Proof. exact seq_run_is_run. Qed.
-
-(* (a) two live handles on the current code: the inner of two nested loops consumes the shared generator and the outer
-   one ends after its first element (lost rows); round robin: RuntimeError from the live dict view *)
-Theorem C03_refuted_interleave :
-  (NoDup [1; 2] /\ hs (DomainCache.run sched_lost (init [1; 2])) = [(HDone, [1]); (HDone, [1; 2])]) /\
-  (NoDup [1; 2] /\ hs (DomainCache.run sched_err (init [1; 2])) = [(HDrain, [1; 2]); (HFailed, [1])]).
-Proof. exact (conj refuted_interleave_lost refuted_interleave_err). Qed.
-
-(* (a) a duplicate element, sequential schedule: twice on the iteration that fills the cache, once afterwards *)
-Theorem C03_refuted_dup :
-  seq_run sched_dup (init [7; 7]) <> None /\
-  hs (DomainCache.run sched_dup (init [7; 7])) = [(HDone, [7; 7]); (HDone, [7])].
-Proof. exact refuted_dup. Qed.
-
-(* (a) repaired iterator (index-based replay, duplicates skipped): every domain, EVERY schedule (any interleaving,
-   any number of handles, abandonment anywhere): exhausted handles yielded the de-duplicated domain, all handles a prefix *)
+(* ================= (a) the current iterator ================= *)
+(* every domain (an element may be listed several times), every schedule of create/next/abandon operations of any
+   length, any number of live handles, abandonment anywhere: a handle that ran to StopIteration yielded exactly the
+   de-duplicated domain in order, and every handle -- live or abandoned -- has yielded a prefix of it.
+   (The model has no failure state: the iterator raises nothing.) *)
 Theorem C03_cache_any_schedule_repaired : forall (domain : list hv) (ops : list op) (h : nat) (st : rstate) (tr : list hv),
   nth_error (rhs (rrun ops (rinit domain))) h = Some (st, tr) ->
   (st = RDone -> tr = dedup domain) /\ is_prefix tr (dedup domain).
 Proof. exact cache_any_schedule_repaired. Qed.
 
-Theorem C03_dedup_nodup : forall l : list hv, NoDup l -> dedup l = iter_spec l.
+(* for a domain without repetitions the de-duplicated domain is the domain *)
+Theorem C03_dedup_nodup : forall l : list hv, NoDup l -> dedup l = l.
 Proof. exact dedup_nodup. Qed.
 
-(* (b) a whole evaluation of a rule-free conjunctive query from any state whose caches hold NoDup domains (cold, warm,
-   partially filled) yields the isolated rows and leaves such a state *)
+(* the EMPTY domain explicitly (also one emptied by let's isinstance filter): every handle of every schedule yields nothing *)
+Theorem C03_cache_any_schedule_empty : forall (ops : list op) (h : nat) (st : rstate) (tr : list hv),
+  nth_error (rhs (rrun ops (rinit []))) h = Some (st, tr) -> tr = [].
+Proof. exact cache_any_schedule_empty. Qed.
+
+(* ================= (b) whole evaluations ================= *)
+(* a whole evaluation of a rule-free conjunctive query from any state whose caches stand for the world W (cold, warm,
+   partially filled) yields the isolated rows over W and leaves such a state; [C03_cold_is_good]: W = the de-duplicated domains *)
 Theorem C03_reeval_isolated : forall (W : world) (A : attrs) (c0 : list (list Z)) (q : query) (s : qstate),
   q_rule q = None -> good W c0 s ->
-  fst (run A s q) = iso_rows W A q /\ good W c0 (snd (run A s q)).
+  fst (Reeval.run A s q) = iso_rows W A q /\ good W c0 (snd (Reeval.run A s q)).
 Proof. exact run_isolated. Qed.
 
 Theorem C03_reeval_idempotent : forall (W : world) (A : attrs) (c0 : list (list Z)) (q : query) (s : qstate),
   q_rule q = None -> good W c0 s ->
-  fst (run A (snd (run A s q)) q) = fst (run A s q).
+  fst (Reeval.run A (snd (Reeval.run A s q)) q) = fst (Reeval.run A s q).
 Proof. exact reeval_idempotent. Qed.
 
-(* (b) any history of whole evaluations of rule-free queries sharing variables: each yields its isolated rows *)
+(* any history of whole evaluations of rule-free queries sharing variables: each yields its isolated rows *)
 Theorem C03_history_independent : forall (W : world) (A : attrs) (c0 : list (list Z)) (qs : list query) (s : qstate),
   Forall (fun q => q_rule q = None) qs -> good W c0 s ->
   hist A s qs = map (iso_rows W A) qs.
 Proof. exact hist_isolated. Qed.
 
-Theorem C03_cold_is_good : forall W : world, Forall (@NoDup Z) W -> good W [] (cold W).
+Theorem C03_cold_is_good : forall W : world, good (map dedup W) [] (cold W).
 Proof. exact good_cold. Qed.
 
-(* (b) the link between the two models: a fresh handle run to exhaustion is what a whole evaluation uses *)
+(* the link between the two models: what a whole evaluation does with a variable is a fresh handle of the current
+   iterator run to exhaustion *)
 Theorem C03_iter_full_is_exhaust : forall (d : dstate) (w : list Z), dgood d w ->
-  exhaust (S (S (length w))) d HNew [] = Some (iter_full d).
+  rexhaust (S (S (length w))) d (RLive 0 []) [] = Some (iter_full d).
 Proof. exact iter_full_exhaust. Qed.
 
-(* (b) refuted: rule query with a refinement, second evaluation empty; duplicate element *)
+(* STILL OPEN -- rule query with a refinement: the selector remembers every binding it concluded for; second evaluation empty *)
 Theorem C03_refuted_rule_reeval :
   hist A_w (cold W_w) [q_rule_w; q_rule_w] = [[[0; 11]; [1; 12]; [1; 13]]; []] /\
   iso_rows W_w A_w q_rule_w = [[0; 11]; [1; 12]; [1; 13]].
 Proof. exact refuted_rule_reeval. Qed.
-
-Theorem C03_refuted_dup_reeval :
-  hist [(10, 5)] (cold [[10; 10]]) [q_plain_w; q_plain_w] = [[[10]; [10]]; [[10]]].
-Proof. exact refuted_dup_reeval. Qed.
 
 (* the de-duplication memory of an Exists node: local to the evaluation (the code as it is) => any number of evaluations of
    the node in ANY interleaving each yield one result per key; kept on the node and cleared at start => refuted *)
@@ -113,43 +80,70 @@ Theorem C03_refuted_shared_exists_memory :
   map l_tr (lrun [1; 2] lockstep []) = [[1; 2]; [1; 2]].
 Proof. exact refuted_shared_exists_memory. Qed.
 
-(* non-vacuity: a sequential schedule with an abandoned handle and a fresh one; a two-variable query evaluated twice *)
+(* ================= regression: the PREVIOUS iterator (before 1997e3c) =================
+   yield from self.values.values(); for v in self.iterable: self.values[v.id_] = v; yield v          -- model [hstep] *)
+(* what it did get right: duplicate-free domains, one live handle at a time *)
+Theorem C03_old_cache_sequential : forall (domain : list hv), NoDup domain ->
+  forall (ops : list op) (S' : sys) (h : nat) (st : hstate) (tr : list hv),
+  seq_run ops (init domain) = Some S' ->
+  nth_error (hs S') h = Some (st, tr) ->
+  st <> HFailed /\ (st = HDone -> tr = iter_spec domain) /\ is_prefix tr (iter_spec domain).
+Proof. exact cache_sequential. Qed.
+
+Theorem C03_old_cache_warm_any_schedule : forall (domain : list hv), NoDup domain ->
+  forall (ops : list op) (h : nat) (st : hstate) (tr : list hv),
+  nth_error (hs (DomainCache.run ops {| dom := warm domain; hs := [] |})) h = Some (st, tr) ->
+  st <> HFailed /\ (st = HDone -> tr = iter_spec domain) /\ is_prefix tr (iter_spec domain).
+Proof. exact cache_warm_any_schedule. Qed.
+
+(* what it got wrong (fixed by 1997e3c; the witnesses are replayed on the implementation and must meet the Spec now):
+   two live handles -- lost rows, RuntimeError -- and a duplicate element yielded twice, then once *)
+Theorem C03_refuted_interleave :
+  (NoDup [1; 2] /\ hs (DomainCache.run sched_lost (init [1; 2])) = [(HDone, [1]); (HDone, [1; 2])]) /\
+  (NoDup [1; 2] /\ hs (DomainCache.run sched_err (init [1; 2])) = [(HDrain, [1; 2]); (HFailed, [1])]).
+Proof. exact (conj refuted_interleave_lost refuted_interleave_err). Qed.
+
+Theorem C03_refuted_dup :
+  seq_run sched_dup (init [7; 7]) <> None /\
+  hs (DomainCache.run sched_dup (init [7; 7])) = [(HDone, [7; 7]); (HDone, [7])].
+Proof. exact refuted_dup. Qed.
+
+(* the same three schedules on the current iterator *)
+Example C03_current_on_old_witnesses :
+  rhs (rrun (sched_lost ++ [Next 0]%nat) (rinit [1; 2])) = [(RDone, [1; 2]); (RDone, [1; 2])] /\
+  rhs (rrun (sched_err ++ [Next 1; Next 0; Next 1]%nat) (rinit [1; 2])) = [(RDone, [1; 2]); (RDone, [1; 2])] /\
+  rhs (rrun sched_dup (rinit [7; 7])) = [(RDone, [7]); (RDone, [7])].
+Proof. exact repaired_on_witnesses. Qed.
+
+(* non-vacuity: three live handles interleaved over a domain with a repeated element, one abandoned;
+   a two-variable query evaluated twice; the empty domain with four handles *)
 Example C03_nonvacuous :
-  (NoDup [1; 2; 3] /\
-   exists S', seq_run [Create; Next 0; Next 0; Abandon 0; Create; Next 1; Next 1; Next 1; Next 1]%nat (init [1; 2; 3]) = Some S' /\
-              hs S' = [(HClosed, [1; 2]); (HDone, [1; 2; 3])]) /\
+  rhs (rrun [Create; Next 0; Create; Create; Next 1; Next 2; Next 2; Abandon 2; Next 0; Next 1; Next 1; Next 0; Next 0; Next 1]%nat
+            (rinit [1; 2; 1; 3]))
+  = [(RDone, [1; 2; 3]); (RDone, [1; 2; 3]); (RClosed, [1; 2])] /\
   (let q := {| q_sel := [0%nat; 1%nat]; q_conds := [ACmpC 0 Cge 1; ACmpV 0 Clt 1]; q_rule := None |} in
    let W := [[10; 11; 12]; [20; 21]] in
    let A := [(10, 0); (11, 1); (12, 2); (20, 2); (21, 3)] in
-   Forall (@NoDup Z) W /\
-   hist A (cold W) [q; q] = [[[11; 20]; [11; 21]; [12; 21]]; [[11; 20]; [11; 21]; [12; 21]]]).
+   good (map dedup W) [] (cold W) /\
+   hist A (cold W) [q; q] = [[[11; 20]; [11; 21]; [12; 21]]; [[11; 20]; [11; 21]; [12; 21]]]) /\
+  rhs (rrun [Create; Next 0; Create; Next 1; Next 0; Create; Abandon 2; Create; Next 3]%nat (rinit []))
+  = [(RDone, []); (RDone, []); (RClosed, []); (RDone, [])].
 Proof.
-  split.
-  - split; [repeat constructor; simpl; intuition discriminate|].
-    eexists. split; vm_compute; reflexivity.
-  - exact reeval_nonvacuous.
+  split; [vm_compute; reflexivity|]. split; [exact reeval_nonvacuous|vm_compute; reflexivity].
 Qed.
 
-(* non-vacuity for the empty domain: four handles one after the other, one of them abandoned *)
-Example C03_nonvacuous_empty :
-  exists S', seq_run [Create; Next 0; Next 0; Create; Next 1; Create; Abandon 2; Create; Next 3]%nat (init []) = Some S' /\
-             hs S' = [(HDone, []); (HDone, []); (HClosed, []); (HDone, [])].
-Proof. exact empty_domain_two_handles. Qed.
-
-Print Assumptions C03_cache_sequential.
-Print Assumptions C03_cache_sequential_empty.
-Print Assumptions C03_cache_warm_any_schedule.
-Print Assumptions C03_seq_run_is_run.
-Print Assumptions C03_refuted_interleave.
-Print Assumptions C03_refuted_dup.
 Print Assumptions C03_cache_any_schedule_repaired.
 Print Assumptions C03_dedup_nodup.
+Print Assumptions C03_cache_any_schedule_empty.
 Print Assumptions C03_reeval_isolated.
 Print Assumptions C03_reeval_idempotent.
 Print Assumptions C03_history_independent.
 Print Assumptions C03_cold_is_good.
 Print Assumptions C03_iter_full_is_exhaust.
 Print Assumptions C03_refuted_rule_reeval.
-Print Assumptions C03_refuted_dup_reeval.
 Print Assumptions C03_exists_local_isolated.
 Print Assumptions C03_refuted_shared_exists_memory.
+Print Assumptions C03_old_cache_sequential.
+Print Assumptions C03_old_cache_warm_any_schedule.
+Print Assumptions C03_refuted_interleave.
+Print Assumptions C03_refuted_dup.
